@@ -41,6 +41,9 @@ func (e *sched) zeroOf(t types.Type) sVal {
 
 func (e *sched) step(st *sState, in ssa.Instruction) {
 	e.steps++
+	if e.proto != nil && e.proto.step(st, in) {
+		return
+	}
 	switch x := in.(type) {
 	case *ssa.Alloc:
 		id := e.newID()
@@ -308,6 +311,15 @@ func (e *sched) step(st *sState, in ssa.Instruction) {
 			st.vals[x] = sOpaque{fmt.Sprintf("index of %T", a)}
 		}
 	case *ssa.Index:
+		// element of an array value (kept as a reference to the array object)
+		if ap, ok := e.get(st, x.X).(sPtr); ok && ap.idx == -1 {
+			if arr, ok := st.heap[ap.id].(*hArray); ok {
+				if c, ok := constOf(e.get(st, x.Index)); ok && c.IsInt64() && c.Int64() >= 0 && int(c.Int64()) < len(arr.elems) {
+					st.vals[x] = arr.elems[c.Int64()]
+					return
+				}
+			}
+		}
 		st.vals[x] = sOpaque{"index value"}
 	case *ssa.FieldAddr:
 		// struct objects are heap arrays with one cell per field; an array-typed field cell holds the pointer to the
@@ -1050,6 +1062,25 @@ func (e *sched) execFrom(fr *sFrame, states []*sState, b, pred, stop *ssa.BasicB
 					} else {
 						fS = append(fS, st)
 					}
+				case isPCond(cv):
+					pc := cv.(pCond)
+					if v, known := e.proto.decideCond(st, pc); known {
+						if v {
+							tS = append(tS, st)
+						} else {
+							fS = append(fS, st)
+						}
+						break
+					}
+					c2 := st.clone()
+					e.proto.assumeCond(st, pc, true)
+					e.proto.assumeCond(c2, pc, false)
+					if !e.proto.infeasible(st) {
+						tS = append(tS, st)
+					}
+					if !e.proto.infeasible(c2) {
+						fS = append(fS, c2)
+					}
 				case isCondInf(cv):
 					ci := cv.(sCondInf)
 					c2 := st.clone()
@@ -1116,9 +1147,15 @@ func (e *sched) execFrom(fr *sFrame, states []*sState, b, pred, stop *ssa.BasicB
 }
 
 func isCondInf(v sVal) bool { _, ok := v.(sCondInf); return ok }
+func isPCond(v sVal) bool   { _, ok := v.(pCond); return ok }
 
 func (e *sched) execCall(states []*sState, call *ssa.Call) []*sState {
 	cal := call.Call.StaticCallee()
+	if e.proto != nil {
+		if out, handled := e.protoCall(states, call); handled {
+			return out
+		}
+	}
 	if cal == nil {
 		if b, ok := call.Call.Value.(*ssa.Builtin); ok {
 			for _, st := range states {
@@ -1148,7 +1185,11 @@ func (e *sched) execCall(states []*sState, call *ssa.Call) []*sState {
 			}
 			args = append(args, v)
 		}
-		res, ok := e.summary(st, call, cal, args)
+		var res sVal
+		ok := false
+		if e.proto == nil {
+			res, ok = e.summary(st, call, cal, args)
+		}
 		if e.nextID > maxID {
 			maxID = e.nextID
 		}
@@ -1327,6 +1368,12 @@ func (e *sched) merge(states []*sState) []*sState { return e.mergeAt(states, nil
 // mergeAt joins states at block b of function fn: only values that are live there (and the values of the enclosing
 // frames) keep states apart; values of functions that are not being interpreted any more are ignored.
 func (e *sched) mergeAt(states []*sState, fn *ssa.Function, b *ssa.BasicBlock) []*sState {
+	if e.proto != nil {
+		if len(states) > 4000 {
+			e.fail("more than 4000 paths")
+		}
+		return states // the protocol functions are followed path by path
+	}
 	var liveSet map[ssa.Value]bool
 	if fn != nil && b != nil {
 		liveSet = e.liveness(fn)[b]
@@ -1804,4 +1851,52 @@ func symbolicDiffer(a, b sVal) bool {
 		return isC
 	}
 	return false
+}
+
+// protoCall: calls in protocol mode (summaries of the layers below sm2, builtins on protocol values)
+func (e *sched) protoCall(states []*sState, call *ssa.Call) ([]*sState, bool) {
+	d := e.proto
+	if b, ok := call.Call.Value.(*ssa.Builtin); ok {
+		handledAll := true
+		for _, st := range states {
+			var args []sVal
+			for _, a := range call.Call.Args {
+				args = append(args, e.get(st, a))
+			}
+			if r, ok := d.builtin(st, b.Name(), call, args); ok {
+				st.vals[call] = r
+			} else {
+				st.vals[call] = e.builtin(st, b, call)
+				_ = handledAll
+			}
+		}
+		return states, true
+	}
+	name, argVals := protoCallName(e.p, call)
+	if name == "" {
+		return nil, false
+	}
+	cal := call.Call.StaticCallee()
+	var out []*sState
+	anyHandled := false
+	for _, st := range states {
+		var args []sVal
+		for _, a := range argVals {
+			args = append(args, e.get(st, a))
+		}
+		handled, extra := d.call(st, call, name, args)
+		if !handled {
+			if cal != nil && isRepoFunc(cal) && len(cal.Blocks) > 0 && len(e.frames) > 0 && cal.Pkg == e.frames[0].Pkg {
+				return nil, false // a function of the package under analysis: follow it
+			}
+			e.fail("call of %s at %s is not modelled in the protocol domain", name, e.p.InstrPos(call))
+			st.vals[call] = sOpaque{"unmodelled call"}
+		}
+		anyHandled = true
+		if !st.dead {
+			out = append(out, st)
+		}
+		out = append(out, extra...)
+	}
+	return out, anyHandled
 }
